@@ -348,7 +348,11 @@ class Ref:
                 e["min_target_temperature"], e["max_target_temperature"] = t(lh), t(hh)
             elif st["mode"] == "cool":
                 e["min_target_temperature"], e["max_target_temperature"] = t(lc), t(hc)
+            elif st["mode"] == "auto":
+                # plain AUTO: the unit may heat or cool, so every set-point admissible for either must be admissible - the union
+                e["min_target_temperature"], e["max_target_temperature"] = t(min(lc, lh)), t(max(hc, hh))
             else:
+                # AUTO_HEAT / AUTO_COOL / DRY / FAN: the statement does not say which range applies; anything inside the union is accepted
                 e["min_target_temperature"] = e["max_target_temperature"] = Within(min(lc, lh), max(hc, hh))
                 e["_min_le_max"] = True
         spill = st["spill"] == "true"
